@@ -247,11 +247,16 @@ MergeVersions(r, s) == {Max(gen[r], MergeFloor(hlv[r], hlv[s], r)) + 1, MergeFlo
 Pos(x) == CHOOSE k \in 1..Len(RepOrder) : RepOrder[k] = x
 Activation(r) == (RepOrder # <<>> /\ hlv[r].src = NoSrc) => \A q \in Rep : Pos(q) < Pos(r) => hlv[q].src # NoSrc
 
+PullClass(r, s) == IF hlv[r].src = NoSrc THEN "NoConflict" ELSE Classify(hlv[r], hlv[s])
 Next ==
   /\ Len(hist) < MaxSteps
   /\ \/ \E r \in Rep : Activation(r) /\ \E v \in EditVersions(r) : Edit(r, v)
-     \/ \E r, s \in Rep : Activation(r) /\ \E res \in (Resolutions \ {"Merge"}) \cup {"None"} : Pull(r, s, res, 0)
-     \/ \E r, s \in Rep : Activation(r) /\ "Merge" \in Resolutions /\ \E v \in MergeVersions(r, s) : Pull(r, s, "Merge", v)
+     \/ \E r, s \in Rep :
+          /\ r # s /\ hlv[s].src # NoSrc /\ Activation(r)
+          /\ IF PullClass(r, s) = "Conflict"
+             THEN \/ \E res \in Resolutions \ {"Merge"} : Pull(r, s, res, 0)
+                  \/ "Merge" \in Resolutions /\ \E v \in MergeVersions(r, s) : Pull(r, s, "Merge", v)
+             ELSE Pull(r, s, "None", 0)
 Spec == Init /\ [][Next]_vars
 
 -----------------------------------------------------------------------------
